@@ -1044,6 +1044,32 @@ def nrt_route_cases(ctx):
             if rng.random() < 0.4:
                 ops.append(ops[-1])                 # the same thing again
         cases.append({'ops': ops, 'cls': 'nrt_random_duplicates'})
+    # the sender is a routine played on the clock, at logical times > 0 (relative time: latencies count from the
+    # routine's now) -- bundles with nested bundles and completion bundles, messages, immediate bundles, splits
+    nested = [[S('/outer'), I(1), Fl(2.5), S('str'), [S('/done'), I(7)]], [Fl(0.75), [S('/nested'), I(3)], [Fl(1.0), [S('/deep'), I(4)]]],
+              [S('/with_cbundle'), [Fl(0.125), [S('/cb'), I(5)]]]]
+    cases.append({'ops': [['bundle', Fl(0.25), [[S('/at0'), I(1)]]], ['wait', 2.0], ['bundle', Fl(0.5), nested], ['msg', [S('/plain'), I(9)]],
+                          ['bundle', Fl(-1.0), [[S('/late'), I(1)]]], ['wait', 1.0], ['bundle', None, [[S('/immediate'), I(1)]]],
+                          ['bundle', I(0), nested[:1]], ['ctx', [list(same), [S('/x')]]], ['wait', 0.5], ['clumped', None, big_equal[:50]],
+                          ['clumped', Fl(0.2), distinct]], 'ctx': 'routine', 'cls': 'nrt_routine_times'})
+    cases.append({'ops': [['wait', 1.5], later, ['clumped', None, big_equal], ['msg', [S('/n_run'), I(1)]], ['msg', [S('/n_run'), I(1)]]],
+                  'ctx': 'routine', 'cls': 'nrt_routine_equal_clumps'})
+    for _ in range(ctx.n(6, 60)):
+        ops = []
+        for _ in range(rng.randint(2, 8)):
+            k = rng.random()
+            els = [rng.choice(pool) for _ in range(rng.randint(1, 4))]
+            if k < 0.25:
+                ops.append(['wait', rng.choice([0.0, 0.25, 0.5, 1.0, 2.0])])
+            elif k < 0.45:
+                ops.append(['msg', rng.choice(pool[:5])])
+            elif k < 0.8:
+                ops.append(['bundle', rng.choice([None, I(0), Fl(0.0), Fl(0.5), Fl(-1.0), Fl(0.25)]), els])
+            elif k < 0.9:
+                ops.append(['clumped', rng.choice([None, Fl(0.2)]), els])
+            else:
+                ops.append(['ctx', [e for e in els if isinstance(e[0], dict) and 's' in e[0]] or [[S('/x')]]])
+        cases.append({'ops': ops, 'ctx': 'routine', 'cls': 'nrt_routine_random'})
     for k in cases:
         k['kind'] = 'nrt_route'
     return cases
@@ -1058,7 +1084,7 @@ def check_nrt_route(ctx, c):
         c.count('site:' + k['cls'])
         if o.get('skipped'):
             continue
-        ops = [[op[0]] + ([show(op[1])] if op[0] in ('msg',) else ([show(op[1]), '%d elements like %s' % (len(op[2]), show(op[2][0]))] if op[0] != 'ctx'
+        ops = [[op[0]] + ([str(op[1])] if op[0] == 'wait' else [show(op[1])] if op[0] in ('msg',) else ([show(op[1]), '%d elements like %s' % (len(op[2]), show(op[2][0]))] if op[0] != 'ctx'
                                                                   else ['%d messages like %s' % (len(op[1]), show(op[1][0]))])) for op in k['ops']]
         rp = {'site': 'nrt_route', 'ops': ops, 'command': './check C06 --replay <this file>'}
         if 'crash' in o or 'error' in o:
@@ -1070,13 +1096,38 @@ def check_nrt_route(ctx, c):
         for m in o['marker_shas']:              # the root node and the closing marker the score adds itself
             entries[(m,)] -= 1
         entries = +entries
+
+        # the time tag each bundle carries in the score, by the documented rule: None/negative = now; from the main
+        # thread the latency is absolute, from a routine it counts from the routine's logical time
+        def want_tag(h):
+            v = pyval(h['time']) if h['method'] == 'send_bundle' else 0.0
+            lat = 0.0 if v is None or v < 0.0 else v
+            return int((lat + h['st'] if h.get('routine') else lat) * 4294967296.0)
+        handed_t = Counter((str(want_tag(h)), tuple(h['elems'])) for h in o['handed'])
+        entries_t = Counter((e[0], tuple(e[1])) for e in o['entries'] if (e[1][0],) != tuple(e[1]) or e[1][0] not in o['marker_shas'])
+        # (a handed single-element bundle equal to a marker would be dropped with it: the pools never send /g_new or /c_set)
+        if handed == entries and handed_t != entries_t:
+            miss = list((handed_t - entries_t).items())[:1]
+            extra = list((entries_t - handed_t).items())[:1]
+            c.failures.append(Failure('correspondence', 'non-real-time%s: a bundle of %d element(s) handed to the interface is in the score with time tag %s, expected %s '
+                                      '(now + latency): %s' % (' (sent from a routine)' if k.get('ctx') == 'routine' else '', len(miss[0][0][1]) if miss else 0,
+                                                               extra[0][0][0] if extra else '?', miss[0][0][0] if miss else '?', ops),
+                                      signature='C06:timetag', found_input=True, theorem='bundle_roundtrip',
+                                      replay=dict(rp, expected_tag=miss[0][0][0] if miss else None, score_tag=extra[0][0][0] if extra else None,
+                                                  sent_at=[h['st'] for h in o['handed']][:8])))
         n_handed = sum(len(h['elems']) for h in o['handed'])
         n_score = sum(len(e[1]) for e in o['entries']) - 2
         c.nontriv(('nrt', k['cls'], n_handed))
         if not all(e[2] for e in o['entries']):
             c.failures.append(Failure('correspondence', 'the raw score is not a sequence of size-prefixed bundles of size-prefixed elements: %s' % ops,
                                       signature='C06:nrt_raw_score', found_input=True, replay=rp))
-        if handed != entries or sorted(o['list_entries']) != sorted([h['n'] for h in o['handed']] + [1, 1]):
+        if handed != entries and n_handed == n_score and len(o['handed']) == len(o['entries']) - 2:
+            c.failures.append(Failure('correspondence', 'non-real-time%s: every bundle handed to the interface is in the score, but %d of them with elements whose bytes differ from '
+                                      'what the encoder gives for the same element at the same moment (nested or completion bundles: their time tags): %s'
+                                      % (' (sent from a routine)' if k.get('ctx') == 'routine' else '', sum((handed - entries).values()), ops),
+                                      signature='C06:nrt_element_differs', found_input=True, theorem='bundle_roundtrip',
+                                      replay=dict(rp, sent_at=[h['st'] for h in o['handed']][:8])))
+        elif handed != entries or sorted(o['list_entries']) != sorted([h['n'] for h in o['handed']] + [1, 1]):
             c.failures.append(Failure('correspondence', 'non-real-time: %d elements in %d bundles were handed to the interface, the score of this life carries %d in %d '
                                       '(every element must be carried exactly once): %s'
                                       % (n_handed, len(o['handed']), n_score, len(o['entries']) - 2, ops),
